@@ -303,8 +303,20 @@ for _f, _e, _props in (("cfg_set_error_function", "h_dfcc_errfunc", ["C06", "C16
       label="proof (contract in CBMC's contract language enforced by goto-instrument --dfcc, assigns clause = frame; <= 3 values where a slot array is involved)",
       props=_props, cost=30)
 
+# loops closed by loop contracts: the unbounded unit (SMT back end, quantified precondition, arrays of up to 1024 options) and its
+# quantifier-free twin on the SAT back end (arrays of up to 3 options), which is the one that yields a counterexample
+for _f, _e in (("cfg_numopts", "h_dfcc_numopts"), ("cfg_getnopt", "h_dfcc_getnopt")):
+    U("dfcc_loop_" + _f, harness="harness/dfcc.c", entry=_e, func=_f, style="S1", defs={"quick": []}, cbmc=NOOOM, backend="z3",
+      dfcc={"enforce": [_f], "loops": True}, expect_canary=False, no_slice=False, require_obligations=[r"loop_invariant_step", r"loop_decreases", r"postcondition"],
+      label="proof (function contract + loop contract (invariant, frame, variant) enforced by goto-instrument --dfcc --apply-loop-contracts; option arrays of every length up to 1024; SMT back end z3)",
+      props=["C16", "C01", "C02"], cost=20)
+    U("dfcc_loop_" + _f + "_twin", harness="harness/dfcc.c", entry=_e, func=_f, style="S1", defs={"quick": ["-DCFGV_TWIN"]}, cbmc=NOOOM,
+      dfcc={"enforce": [_f], "loops": True}, expect_canary=False, no_slice=False, require_obligations=[r"loop_invariant_step", r"loop_decreases", r"postcondition"],
+      label="bounded(quantifier-free twin of the loop-contract unit: option arrays of at most 3 entries; SAT back end, yields counterexamples)",
+      props=["C16", "C01", "C02"], cost=5)
+
 # ------------------------------------------------------------------ per-property text for MANIFEST / evidence
-HOOK_COMMITS = ["b37b503"]
+HOOK_COMMITS = ["b37b503", "1902c5d"]
 NOT_APPLICABLE = {}
 STEP_NOTE = ("The parser's token loop is covered for token sequences of every length by the loop-invariant rule applied by hand "
              "(entry hook CFG_VERIF_PI_ENTRY; base + step units); soundness of that rule rests on the hook handing over every loop-carried local "
